@@ -62,3 +62,23 @@ def enclosing_fors(fn, nid):
             if nid in fn.descendants(fn.nodes[p]['body']) or nid == fn.nodes[p]['body']:
                 out.append(p)
     return out
+
+
+def loops_around(fn, nid, R):
+    """enclosing counted loops (innermost first), index loops in normal form over [0, bound) and
+    range-for loops alike: dicts(name, bound (rendering of the trip count), kind, node)"""
+    out = []
+    for p in fn.ancestors(nid):
+        n = fn.nodes[p]
+        if n['k'] == 'ForStmt' and (nid in fn.descendants(n['body']) or nid == n['body']):
+            lf = normal_for(fn, p)
+            if lf and lf['start_cv'] == '0' and lf['op'] == '<':
+                out.append({'name': lf['name'], 'bound': R.render(lf['bound']), 'kind': 'for', 'node': p})
+            else:
+                out.append({'name': None, 'bound': None, 'kind': 'other', 'node': p})
+        elif n['k'] == 'CXXForRangeStmt' and 'body' in n and (nid in fn.descendants(n['body']) or nid == n['body']):
+            lv = n.get('loopvar') or {}
+            out.append({'name': lv.get('name'), 'bound': R.render(n['range']) + '.size' if 'range' in n else None, 'kind': 'range', 'node': p})
+        elif n['k'] in ('WhileStmt', 'DoStmt'):
+            out.append({'name': None, 'bound': None, 'kind': 'other', 'node': p})
+    return out
